@@ -30,7 +30,11 @@ BigCh == << [t |-> "ClientHello", ver |-> 771, random |-> R32, sid |-> None, cip
 (* every body size from 979 to 1100 bytes (whatever buffer an implementation may pick by estimating sizes) *)
 SizeCh == [n \in 1..46 |-> [t |-> "ClientHello", ver |-> 771, random |-> R32, sid |-> IF n % 2 = 0 THEN None ELSE Some(<<7>>),
                              ciphers |-> [k \in 1..(469 + n) |-> k], comp |-> <<0>>, ext |-> IF n % 3 = 0 THEN Some(<<>>) ELSE None]]
-ASSUME TLCSet(2, MapSeq(ChIx, MkCh) \o MapSeq(ShIx, MkSh) \o D18 \o Cke \o Fin \o << [t |-> "HelloRequest"] >> \o SizeCh \o BigCh)
+(* mid-sized hellos (250 .. 520 bytes) whose extension block is a WELL-FORMED list (what real clients send): the block is opaque to the serializer *)
+WellFormedExts == << <<0, 23, 0, 0>>, <<0, 0, 0, 6, 0, 4, 0, 0, 1, 97, 0, 23, 0, 0>>, <<0, 10, 0, 4, 0, 2, 0, 23, 0, 11, 0, 2, 1, 0, 0, 35, 0, 0>>, <<0, 21, 0, 2, 0, 0>> >>
+MidCh == Concat([n \in 1..6 |-> [x \in 1..4 |-> [t |-> "ClientHello", ver |-> 771, random |-> R32, sid |-> IF n % 2 = 0 THEN None ELSE Some(Fill(1, 32)),
+                                                  ciphers |-> [k \in 1..(90 + 25 * n) |-> k], comp |-> <<0>>, ext |-> Some(WellFormedExts[x])]]])
+ASSUME TLCSet(2, MapSeq(ChIx, MkCh) \o MapSeq(ShIx, MkSh) \o D18 \o Cke \o Fin \o << [t |-> "HelloRequest"] >> \o SizeCh \o MidCh \o BigCh)
 HsVals == TLCGet(2)
 NH == Len(HsVals)
 
@@ -64,7 +68,8 @@ ExtVals == << <<>>,
               << [t |-> "SNI", tag |-> 0, names |-> <<[nt |-> 0, name |-> <<97, 46>>], [nt |-> 0, name |-> <<46>>], [nt |-> 0, name |-> <<97, 46, 98, 46>>]>>] >>,
               << [t |-> "SNI", tag |-> 0, names |-> <<[nt |-> 0, name |-> <<65, 0, 255, 195>>], [nt |-> 1, name |-> <<32, 97, 32>>]>>],
                  [t |-> "SNI", tag |-> 0, names |-> <<[nt |-> 0, name |-> Fill(3, 256)]>>] >>,
-              << [t |-> "EllipticCurves", tag |-> 10, groups |-> [k \in 1..300 |-> (k * 251) % 65536]], [t |-> "MaxFragmentLength", tag |-> 0 + 1, v |-> 0] >> >>
+              << [t |-> "EllipticCurves", tag |-> 10, groups |-> [k \in 1..300 |-> (k * 251) % 65536]], [t |-> "MaxFragmentLength", tag |-> 0 + 1, v |-> 0] >>,
+              << [t |-> "EllipticCurves", tag |-> 10, groups |-> <<2570, 23, 6682, 64250, 29, 2570>>] >> >>       \* GREASE values among the groups
 (* values the serializer does not support *)
 Unsupported == << [t |-> "hs", m |-> [t |-> "ServerDone", data |-> <<>>]], [t |-> "hs", m |-> [t |-> "Certificate", chain |-> <<>>]],
                   [t |-> "hs", m |-> [t |-> "KeyUpdate", v |-> 0]], [t |-> "hs", m |-> [t |-> "NewSessionTicket", hint |-> <<0, 0>>, ticket |-> <<>>]],
